@@ -334,4 +334,4 @@ Definition init (s : bytes) : lx :=
   {| inp := s; pre := []; suf := s; start := 0; line := 1; sline := 1; width := 0; fl := FOk; out := [] |}.
 
 Definition lex (s : bytes) : flag * list token :=
-  let l := run (4 * length s + 8) SStart (init s) in (fl l, rev (out l)).
+  let l := run (6 * length s + 8) SStart (init s) in (fl l, rev (out l)).
